@@ -176,9 +176,13 @@ func (s *selectForUpdateExecutor) doExecContext(ctx context.Context, f exec.Call
 
 	// query primary key values
 	var lockKey string
+	var keyErr error
 	_, err = s.exec(ctx, s.selectPKSQL, s.execContext.NamedValues, func(rows driver.Rows) {
-		lockKey = s.buildLockKey(rows, s.metaData)
+		lockKey, keyErr = s.buildLockKeyChecked(rows, s.metaData)
 	})
+	if err == nil {
+		err = keyErr
+	}
 
 	if err != nil {
 		return nil, err
@@ -256,6 +260,13 @@ func (s *selectForUpdateExecutor) buildSelectPKSQL(stmt *ast.SelectStmt, meta *t
 
 // the string as local key. the local key example(multi pk): "t_user:1_a,2_b"
 func (s *selectForUpdateExecutor) buildLockKey(rows driver.Rows, meta *types.TableMeta) string {
+	lockKey, _ := s.buildLockKeyChecked(rows, meta)
+	return lockKey
+}
+
+// buildLockKeyChecked is buildLockKey that also says when the result broke off in the middle (lock wait timeout,
+// connection lost): the keys read so far are not the keys of all the rows the statement is going to return
+func (s *selectForUpdateExecutor) buildLockKeyChecked(rows driver.Rows, meta *types.TableMeta) (string, error) {
 	var (
 		lockKeys    bytes.Buffer
 		idx         int
@@ -272,7 +283,7 @@ func (s *selectForUpdateExecutor) buildLockKey(rows driver.Rows, meta *types.Tab
 			if err == io.EOF {
 				break
 			}
-			return ""
+			return "", err
 		}
 
 		if idx > 0 {
@@ -301,7 +312,10 @@ func (s *selectForUpdateExecutor) buildLockKey(rows driver.Rows, meta *types.Tab
 			lockKeys.WriteString(fmt.Sprintf("%v", reflect.ValueOf(value).Elem()))
 		}
 	}
-	return lockKeys.String()
+	if err := sqlRows.Err(); err != nil {
+		return "", err
+	}
+	return lockKeys.String(), nil
 }
 
 func (s *selectForUpdateExecutor) exec(ctx context.Context, sql string, nvdargs []driver.NamedValue, f func(rows driver.Rows)) (driver.Rows, error) {
